@@ -520,6 +520,21 @@ def _job(spec):
     return out
 
 
+def _results(pool, it):
+    """iterate over pool results, but do not wait forever when a worker process has been killed (multiprocessing
+    replaces a dead worker silently and its task is lost)"""
+    pids = sorted(p.pid for p in getattr(pool, "_pool", []))
+    while True:
+        try:
+            yield it.next(timeout=120)
+        except StopIteration:
+            return
+        except mp.TimeoutError:
+            if sorted(p.pid for p in getattr(pool, "_pool", [])) != pids:
+                raise RuntimeError("a worker process of the pool died (killed from outside?): results are "
+                                   "incomplete, run the check again")
+
+
 def run(chk):
     boot.init()
     chk.rule = ("table: every (arity signature x call shape x argument count) row of Calls.tla performed on the real "
@@ -552,7 +567,7 @@ def run(chk):
         for key in sorted(byrs):
             jobs.append(("recur", byrs[key], thorough))
         ncase, depths = 0, {}
-        for out in pool.imap(_job, jobs, chunksize=1):
+        for out in _results(pool, pool.imap_unordered(_job, jobs, chunksize=1)):
             chk.count(out["n"], traces=out["n"])
             ncase += out["n"]
             depths.update(out["depths"])
@@ -562,6 +577,7 @@ def run(chk):
                 chk.discrepancy(clause, case, exp, got, sig=sig, module="Calls", direction="spec->code")
     finally:
         pool.terminate()
+    chk.discrepancies.sort(key=lambda d: (d["clause"], d["sig"], json.dumps(d["case"], sort_keys=True, default=str)))
     chk.sample({"row": rows[len(rows) // 2]})
     chk.sample({"recur_row": recs[len(recs) // 2]})
     chk.extra.update({"table_rows": len(rows), "recur_rows": len(recs), "executions": ncase,
